@@ -77,3 +77,12 @@ func (k *KittyImage) VerifC20State() (encoding, pendingUpload bool) {
 	}
 	return false, !atomicLoad(&k.uploaded) && k.buf.Len() > 0
 }
+
+// VerifC20State reports whether the image is still being encoded by the goroutine started by
+// Resize and, once it is not, the length of the encoded sixel data.
+func (s *Sixel) VerifC20State() (encoding bool, bufLen int) {
+	if atomicLoad(&s.encoding) {
+		return true, 0
+	}
+	return false, s.buf.Len()
+}
